@@ -204,6 +204,19 @@ func newSorts(keyMode bool) *Sorts {
 		"(declare-fun klen (Int) Int)",
 		"(assert (forall ((k Int)) (! (and (>= (klen k) 0) (= (= (klen k) 0) (= k 0))) :pattern ((klen k))))) ;bg",
 		"(assert (= (klen 0) 0))",
+		// abstract keys: concatenation, suffix, prefix test (facts of byte strings under the lexicographic order, assumed)
+		"(declare-fun kcat (Int Int) Int)",  // kcat(a,b) = a ++ b
+		"(declare-fun kdrop (Int Int) Int)", // kdrop(x,n) = x[n:]
+		"(declare-fun pend (Int) Int)",      // the least key above every key that has prefix p (exists iff hasSucc(p))
+		"(declare-fun hasSucc (Int) Bool)",  // p is not empty and not all 0xFF
+		"(define-fun khasprefix ((x Int) (p Int)) Bool (= x (kcat p (kdrop x (klen p)))))",
+		"(assert (forall ((a Int) (b Int)) (! (=> (and (>= a 0) (>= b 0)) (and (>= (kcat a b) 0) (= (klen (kcat a b)) (+ (klen a) (klen b))) (= (kdrop (kcat a b) (klen a)) b) (<= a (kcat a b)))) :pattern ((kcat a b))))) ;bg",
+		"(assert (forall ((a Int)) (! (=> (>= a 0) (= (kcat a 0) a)) :pattern ((kcat a 0))))) ;bg",
+		"(assert (forall ((b Int)) (! (=> (>= b 0) (= (kcat 0 b) b)) :pattern ((kcat 0 b))))) ;bg",
+		"(assert (forall ((a Int) (b1 Int) (b2 Int)) (! (=> (and (>= a 0) (>= b1 0) (>= b2 0)) (= (< b1 b2) (< (kcat a b1) (kcat a b2)))) :pattern ((kcat a b1) (kcat a b2))))) ;bg",
+		"(assert (forall ((x Int) (n Int)) (! (>= (kdrop x n) 0) :pattern ((kdrop x n))))) ;bg",
+		"(assert (forall ((p Int) (b Int)) (! (=> (and (hasSucc p) (>= p 0) (>= b 0)) (< (kcat p b) (pend p))) :pattern ((kcat p b) (pend p))))) ;bg",
+		"(assert (forall ((p Int) (x Int)) (! (=> (and (hasSucc p) (>= p 0) (<= p x) (< x (pend p))) (khasprefix x p)) :pattern ((kdrop x (klen p)) (pend p))))) ;bg",
 	)
 	return s
 }
